@@ -29,6 +29,9 @@ PROPS["C10"] = dict(
     units=[
         dict(name="exhaustive", run="^TestC10Exhaustive$", shards=(8, 16), timeout=(120, 1500)),
         dict(name="rapid", run="^TestC10Rapid$", checks=(20000, 200000), shards=(2, 16), timeout=(120, 1500)),
+        dict(name="manyiters", run="^TestC10ManyIterators$", checks=(150, 1500), shards=(2, 8), timeout=(120, 900)),
+        # lowers the goroutine stack limit of its process (runtime/debug.SetMaxStack): a unit and a process of its own
+        dict(name="lowstack", run="^TestC10LowStack$", checks=(3, 10), shards=(1, 2), timeout=(120, 900)),
     ],
 )
 
